@@ -640,6 +640,16 @@ def run_c11(ctx):
         exc_cls = FAULT_CLASSES[tape.draw(len(FAULT_CLASSES), "exc")]
         n_after = 1 + tape.draw(3, "n_after")
         second_fault = tape.chance(0.3, "second_fault")
+    # well-definedness / magnitude pre-filter over the horizon of this run (the reference discards
+    # ill-defined programs and exploding values before any real stepper runs)
+    try:
+        pre = RefStepper(sc, b.ap.nm)
+        pre.set_up(sc.t0, sc.dt0, sc.state0)
+        for _ in range(pre_steps + n_after + 4):
+            if isinstance(pre.step(), tuple):
+                break
+    except IllDefined as e:
+        raise Discard("ill-defined-horizon:" + e.reason.split(":")[-1])
     kinds = ["interpreter", "generated"]
     fired_any = False
     for kind in kinds:
@@ -814,6 +824,10 @@ def check_x3_x4(label, kind, pre, post, ref, ap, phase, stmts, f, desc):
             for i, x in enumerate(pv.tolist()):
                 cands = [a[i] for a in allowed_whole if isinstance(a, np.ndarray) and len(a) == len(pv)]
                 cands += elem_allowed.get(i, [])
+                # the reference marks storage made by <builtin>array as NaN: the written program leaves
+                # it uninitialised at that point, so any value is "a value the program assigns"
+                if any(isinstance(c, (float, np.floating)) and c != c for c in cands):
+                    continue
                 if not any(same_value(x, c, tol) for c in cands):
                     ok = False
                     break
